@@ -121,6 +121,10 @@ func TestVerifReplayC10(t *testing.T) {
 			fmt.Fprintf(&sb, "      variables:\n        X: %q\n", val[3])
 		}
 	}
+	second, _ := sc.Inputs["a-second-stage-of-the-same-task-without-stage-variables"].(bool)
+	if second && viaStage && has[3] {
+		sb.WriteString("    - task: t1\n      name: s2\n      depends_on: [s1]\n")
+	}
 	os.WriteFile(cfgFile, []byte(sb.String()), 0o644)
 	args := []string{"taskctl", "--raw", "--quiet", "-c", cfgFile}
 	if has[1] {
@@ -137,6 +141,19 @@ func TestVerifReplayC10(t *testing.T) {
 	exp := ""
 	if defined {
 		exp = "X=" + want
+	}
+	if second && viaStage && has[3] {
+		// the second stage sees the highest level below the stage level; undefined there fails the run
+		w2, d2 := "", false
+		for l := 0; l < 3; l++ {
+			if has[l] {
+				w2, d2 = val[l], true
+			}
+		}
+		if d2 {
+			exp += "\nX=" + w2
+		}
+		defined = d2
 	}
 	fmt.Printf("REPLAY: levels=%v values=%q expected trace %q (error iff undefined), observed %q err=%v\n", has, val, exp, got, runErr)
 	if got != exp || (runErr != nil) != !defined {
